@@ -52,6 +52,23 @@ CLAIMED = {
          "exactly once, that observers run after it and before the response leaves: match-branch injection in core_graph.rs over ComponentDb "
          "and `Err(e) => return` arms of the emitted program (DESIGN §1.3). Same assumptions as C05."),
    design="§3/C06"),
+ "C08": dict(
+   text=("Partial claim — a thin slice: two of the documented rules, on the two functions that check them. Verus discharges, on the real "
+         "text of pavexc's cloneables_can_be_cloned ('clone-if-necessary on a type that is not Clone'; also: every configuration type must "
+         "be Clone) and runtime_singletons_are_thread_safe ('a singleton needed at request time that is not Send + Sync'), with the trait "
+         "oracle (assert_trait_is_implemented over rustdoc JSON) as an uninterpreted predicate and the diagnostic sink observed through a "
+         "ghost error count: if ANY component of the database is subject to the rule and its type does not implement the trait(s) — any "
+         "number of components, any position — at least one error diagnostic reaches the sink (loop invariants over the whole component "
+         "list; both Send and Sync are checked for every singleton), and diagnostics are only ever added. Two lemmas turn 'there is an "
+         "offender' into the counting form the invariants use."),
+   note=("NOT decided — and this is most of C08: every other documented rule (missing constructor, dependency cycle, singleton depending "
+         "on request-scoped, ambiguous singletons, &mut injections, observers needing fallible constructors, route conflicts, "
+         "path-parameter fields) is a graph / rustdoc analysis over ComponentDb outside what Verus accepts; that an error in the sink makes "
+         "App::build fail is the oracle of the C09 unit (whose obligations then give 'never exit 0, no SDK written'); which singletons are "
+         "needed at run time and which types implement a trait are oracles; the diagnostic builders are assumed to push one error each. "
+         "No native replay (pavexc's databases cannot be built without rustdoc JSON from a nightly that is not installed): refutations "
+         "carry no-failing-input-found."),
+   design="§3/C08"),
  "C07": dict(
    text=("Partial claim — a thin slice: the one clause of the statement that is decided by hand-written run-time code. Verus discharges, "
          "on the real text of pavex::router::default_fallback and AllowedMethods::allow_header_value, that the default fallback answers "
